@@ -270,4 +270,13 @@ REGISTRY = {
         'sections': [{'name': 'entry-points', 'run': simple_sec('sec_config', 'config_section')}],
         'rule': 'set_default_config sequences x explicit/defaulted settings x six entry points',
     },
+    'C16': {
+        'theorems': ['PP.C16.strip', 'PP.C16.innermost', 'PP.C16.ends_reset', 'PP.C16.table_total', 'PP.C16.tokens_exist',
+                     'PP.C16.styleOf_total', 'PP.C04.ann_balanced'],
+        'modules': ['PP.Model.Color', 'PP.Generated', 'PP.Props.C16'],
+        'sections': [{'name': 'colour', 'run': simple_sec('sec_color', 'color_section')}],
+        'rule': 'coloured rendering of values and annotated documents under every pygments style, colour forced on',
+        'assumptions': ['colorful\'s SGR strings and pygments\' style_for_token are opaque to the model: `sgr t` stands for str(styleattrs_to_colorful(style_for_token(token t))); '
+                        'that every such string starts with the reset sequence (so writing it sets the state absolutely) is checked over all 32 attribute shapes on every run'],
+    },
 }
